@@ -37,6 +37,8 @@ def call_onnx_api(func: Callable[[onnx.ModelProto], _R], model: ir.Model) -> _R:
     # Store the original initializer values so they can be restored
     initializer_values = tuple(model.graph.initializers.values())
     tensors = {v.name: v.const_value for v in initializer_values}
+    # Shapes and types are filled in from the tensors for the call and restored afterwards
+    shapes_and_types = [(v, v.shape, v.type) for v in initializer_values]
     original_inputs_len = len(model.graph.inputs)
 
     # Turn the initializers into inputs and clear the initializers
@@ -46,8 +48,9 @@ def call_onnx_api(func: Callable[[onnx.ModelProto], _R], model: ir.Model) -> _R:
         if initializer.const_value is not None:
             if initializer.shape is None:
                 initializer.shape = initializer.const_value.shape  # type: ignore[assignment]
-            if initializer.dtype is None:
-                initializer.dtype = initializer.const_value.dtype
+            if initializer.type is None:
+                # Set a new type object (restored below) instead of changing one in place
+                initializer.type = ir.TensorType(initializer.const_value.dtype)
         if initializer not in model.graph.inputs:
             model.graph.inputs.append(initializer)
         if initializer.const_value is None:
@@ -69,16 +72,16 @@ def call_onnx_api(func: Callable[[onnx.ModelProto], _R], model: ir.Model) -> _R:
         # Call the ONNX C API function
         result = func(proto)
     finally:
-        # Restore the original initializer values so the model is unchanged
-        for initializer in initializer_values:
+        # Restore the original initializer values, in their original order, so the
+        # model is unchanged
+        model.graph.initializers.clear()
+        for initializer, shape, type_ in shapes_and_types:
             initializer.const_value = tensors[initializer.name]
-            if initializer.const_value is not None:
-                model.graph.register_initializer(initializer)
-            else:
-                # register_initializer requires const_value to be set.
-                # Directly add to the initializers dict to restore unloaded
-                # initializers that have no data.
-                model.graph.initializers.add(initializer)
+            initializer.shape = shape
+            initializer.type = type_
+            # Add to the initializers dict directly: register_initializer requires
+            # const_value to be set, which unloaded initializers do not have
+            model.graph.initializers.add(initializer)
 
         # Restore the original inputs
         inputs = model.graph.inputs[:original_inputs_len]
